@@ -12,7 +12,7 @@ EXTENDS Integers, Sequences, FiniteSets, TLC, Json, IOUtils
 
 Log == ndJsonDeserialize(IOEnv.TRACE_FILE)
 
-IsNote(c) == SubSeq(c, 1, 2) = "X:"
+IsNote(c) == SubSeq(c, 1, 2) = "X:" \/ SubSeq(c, 1, 2) = "S:"
 Report(line, clauses) ==
   LET notes == {c \in clauses : IsNote(c)}
       fails == clauses \ notes
